@@ -69,7 +69,7 @@ Print Assumptions C11_generated_omission_switches.
 From Coq Require Import String.
 From SV Require Fmt0 Fmt0Proof.
 Theorem C11_L0_every_call_obeys_call_parentheses : forall c p,
-  Fmt0Proof.sall_b (Fmt0Proof.calls_ok (Fmt0.callp0 c) false) (Fmt0.norm0 c p) = true.
+  Fmt0.sall_b (Fmt0Proof.calls_ok (Fmt0.callp0 c) false) (Fmt0.norm0 c p) = true.
 Proof. exact Fmt0Proof.format0_calls_obey_the_option. Qed.
 Print Assumptions C11_L0_every_call_obeys_call_parentheses.
 (* under Input the call-form pass prints every expression exactly as it would have been printed without it *)
